@@ -3,7 +3,7 @@
     reference stores); spec: Tree/Merge.v (positional keyed deep merge).  Domain: every choice-free,
     well-formed schema view and every source/target shaped like it - no bound on size or depth. *)
 From Coq Require Import ZArith List Bool Strings.Byte.
-From YV Require Import Val.Model Tree.Schema Tree.Editor Tree.Merge Tree.EditorProofs.
+From YV Require Import Val.Model Tree.Schema Tree.Editor Tree.Merge Tree.EditorProofs Tree.InsertUpdateProofs.
 Import ListNotations.
 
 (** Upsert leaves the target equal to the keyed deep merge of S over T (full statement). *)
@@ -80,9 +80,104 @@ Definition C03_update_full_statement : Prop := forall kids src tgt,
   shaped_kids shaped kids src = true -> shaped_kids shaped kids tgt = true ->
   edit_content false kids src tgt Update =
     if missing_kids update_missing kids src tgt then Err ENotFound else Ok (merge_content kids src tgt).
-(** Proved of them: success => merge (C03_ok_is_merge), conflict/missing at the edited level =>
-    failure (the two _partial theorems).  Not proved: the error class on every path, and "no
-    conflict => success" (needs pairwise-distinct keys in S and key-equality being an equivalence). *)
+(** As stated they are FALSE (C03_insert_full_needs_distinct_keys / _needs_key_without_default
+    below); they are proved, in Tree/InsertUpdateProofs.v, under the hypotheses spelled out in
+    C03_insert_full / C03_update_full. *)
+
+(** Insert.  Extra hypotheses: every list key names a leaf of the row that has no schema default
+    ([keys_ok true], what YANG demands of keys); in the source lists reached without crossing a
+    list entry, no row finds an earlier row of its list by key ([src_distinct false]). *)
+Theorem C03_insert_full : forall kids src tgt,
+  forallb wf_schema kids = true -> forallb choice_free kids = true -> forallb (keys_ok true) kids = true ->
+  shaped_kids shaped kids src = true -> shaped_kids shaped kids tgt = true ->
+  all_kids (src_distinct false) kids src = true ->
+  edit_content false kids src tgt Insert =
+    if insert_conflicts kids src tgt then Err EConflict else Ok (merge_content kids src tgt).
+Proof. exact insert_full. Qed.
+Print Assumptions C03_insert_full.
+
+(** Update.  Extra hypotheses: every list key names a leaf of the row ([keys_ok false]); in every
+    source list no row finds an earlier one by key ([src_distinct true]); the key leaves of all
+    source and target rows hold well-formed values ([keys_wf], Val/Proofs.v wf_value), on which
+    val.Equal is an equivalence ([key_eqb_euclid]). *)
+Theorem C03_update_full : forall kids src tgt,
+  forallb wf_schema kids = true -> forallb choice_free kids = true -> forallb (keys_ok false) kids = true ->
+  shaped_kids shaped kids src = true -> shaped_kids shaped kids tgt = true ->
+  all_kids (src_distinct true) kids src = true ->
+  all_kids keys_wf kids src = true -> all_kids keys_wf kids tgt = true ->
+  edit_content false kids src tgt Update =
+    if missing_kids update_missing kids src tgt then Err ENotFound else Ok (merge_content kids src tgt).
+Proof. exact update_full. Qed.
+Print Assumptions C03_update_full.
+
+(** and at any node, any depth *)
+Theorem C03_update_is_merge_or_missing : forall s, wf_schema s = true -> choice_free s = true ->
+  keys_ok false s = true -> is_leaf s = false -> forall src tgt, shaped s src = true -> shaped s tgt = true ->
+  src_distinct true s src = true -> keys_wf s src = true -> keys_wf s tgt = true ->
+  edit_one false s src tgt false Update
+  = if update_missing s src tgt then Err ENotFound else Ok (merge_one s src tgt false).
+Proof. exact update_is_merge_or_missing. Qed.
+
+Theorem C03_key_equality_euclidean : forall a b c,
+  forallb wf_okey a = true -> forallb wf_okey b = true -> forallb wf_okey c = true ->
+  key_eqb a b = true -> key_eqb a c = true -> key_eqb b c = true.
+Proof. exact key_eqb_euclid. Qed.
+Print Assumptions C03_key_equality_euclidean.
+
+(** the added hypotheses are satisfiable together, on a schema with a keyed list holding a
+    container, a defaulted leaf and a nested keyed list; Insert and Update both do something *)
+Example C03_full_hyps_met :
+  let mk n := mkMeta [n] [] true [] None in
+  let leaf n d := SLeaf (mk n) (TInt FInt32) false d in
+  let iv z := Some (DLeaf (LV (VInt FInt32 z))) in
+  let rown := SCont (mk x72) [leaf x6a None; leaf x77 None] in
+  let row := SCont (mk x72) [leaf x6b None; leaf x76 (Some (LV (VInt FInt32 9%Z)));
+                             SCont (mk x64) [leaf x79 None]; SList (mk x6e) [0] rown] in
+  let kids := [leaf x61 None; SList (mk x6c) [0] row] in
+  let src := [iv 4%Z; Some (DList [DCont [iv 1%Z; None; Some (DCont [iv 5%Z]); Some (DList [DCont [iv 8%Z; iv 3%Z]])];
+                                   DCont [iv 2%Z; iv 6%Z; None; None]])] in
+  let tgt := [None; Some (DList [DCont [iv 2%Z; None; None; None];
+                                 DCont [iv 1%Z; None; Some (DCont [None]); Some (DList [DCont [iv 8%Z; None]])]])] in
+  forallb wf_schema kids = true /\ forallb choice_free kids = true /\ forallb (keys_ok true) kids = true /\
+  forallb (keys_ok false) kids = true /\
+  shaped_kids shaped kids src = true /\ shaped_kids shaped kids tgt = true /\
+  all_kids (src_distinct false) kids src = true /\ all_kids (src_distinct true) kids src = true /\
+  all_kids keys_wf kids src = true /\ all_kids keys_wf kids tgt = true /\
+  edit_content false kids src tgt Update
+    = Ok [iv 4%Z; Some (DList [DCont [iv 2%Z; iv 6%Z; None; None];
+                               DCont [iv 1%Z; None; Some (DCont [iv 5%Z]); Some (DList [DCont [iv 8%Z; iv 3%Z]])]])] /\
+  edit_content false kids src tgt Insert = Err EConflict /\
+  edit_content false kids src [None; None] Insert
+    = Ok [iv 4%Z; Some (DList [DCont [iv 1%Z; iv 9%Z; Some (DCont [iv 5%Z]); Some (DList [DCont [iv 8%Z; iv 3%Z]])];
+                               DCont [iv 2%Z; iv 6%Z; None; None]])] /\
+  edit_content false kids src [None; Some (DList [DCont [iv 2%Z; None; None; None]])] Update = Err ENotFound.
+Proof. vm_compute. repeat split. Qed.
+
+(** why the hypotheses: two source rows with one key make Insert report a conflict with itself ... *)
+Example C03_insert_full_needs_distinct_keys :
+  let mk n := mkMeta [n] [] true [] None in
+  let leaf n d := SLeaf (mk n) (TInt FInt32) false d in
+  let iv z := Some (DLeaf (LV (VInt FInt32 z))) in
+  let kids := [SList (mk x6c) [0] (SCont (mk x72) [leaf x6b None])] in
+  let src := [Some (DList [DCont [iv 1%Z]; DCont [iv 1%Z]])] in
+  forallb wf_schema kids = true /\ forallb choice_free kids = true /\ forallb (keys_ok true) kids = true /\
+  shaped_kids shaped kids src = true /\ shaped_kids shaped kids [None] = true /\
+  all_kids (src_distinct false) kids src = false /\
+  insert_conflicts kids src [None] = false /\ edit_content false kids src [None] Insert = Err EConflict.
+Proof. vm_compute. repeat split. Qed.
+
+(** ... and a key leaf with a schema default gives a row without a key the key of a later row
+    (not expressible in YANG: defaults on key leaves are ignored/forbidden, RFC 7950 7.8.2) *)
+Example C03_insert_full_needs_key_without_default :
+  let mk n := mkMeta [n] [] true [] None in
+  let leaf n d := SLeaf (mk n) (TInt FInt32) false d in
+  let iv z := Some (DLeaf (LV (VInt FInt32 z))) in
+  let kids := [SList (mk x6c) [0] (SCont (mk x72) [leaf x6b (Some (LV (VInt FInt32 7%Z)))])] in
+  let src := [Some (DList [DCont [None]; DCont [iv 7%Z]])] in
+  forallb wf_schema kids = true /\ forallb choice_free kids = true /\ forallb (keys_ok true) kids = false /\
+  shaped_kids shaped kids src = true /\ all_kids (src_distinct false) kids src = true /\
+  insert_conflicts kids src [None] = false /\ edit_content false kids src [None] Insert = Err EConflict.
+Proof. vm_compute. repeat split. Qed.
 
 (** non-vacuity: a schema with a list and a defaulted leaf, non-trivial source and target *)
 Example C03_hyps_met :
